@@ -239,22 +239,27 @@ def x_labels(tier: str) -> tuple[str, ...]:
     return ("i0", "undef") if tier == "quick" else ("i0", "undef", "s_empty", "false")
 
 
-def tree_families(tier: str) -> list[tuple[str, tuple[str, ...], list[tuple[int, int]]]]:
-    """(family name, sites, [(exact number of leaves, max not/paren nesting depth)])."""
+FULL = R.LEAF_SYMS  # true, false, nil, x
+NO_NIL = ("true", "false", "x")
+
+
+def tree_families(tier: str) -> list[tuple[str, tuple[str, ...], list[tuple[int, int, tuple[str, ...]]]]]:
+    """(family name, sites, [(exact number of leaves, max not/paren nesting depth, leaf alphabet)])."""
     if tier == "quick":
         return [
-            ("if", ("if",), [(1, 2), (2, 2), (3, 2), (4, 1)]),
-            ("other", ("unless", "elsif", "unless_elsif", "ternary"), [(1, 2), (2, 2), (3, 1)]),
+            ("if", ("if",), [(1, 2, FULL), (2, 2, FULL), (3, 2, FULL), (4, 1, NO_NIL)]),
+            ("other", ("unless", "elsif", "unless_elsif", "ternary"), [(1, 2, FULL), (2, 2, FULL), (3, 1, FULL)]),
         ]
     return [
-        ("if", ("if",), [(1, 3), (2, 3), (3, 3), (4, 2)]),
-        ("other", ("unless", "elsif", "unless_elsif", "ternary"), [(1, 2), (2, 2), (3, 2), (4, 1)]),
+        ("if", ("if",), [(1, 3, FULL), (2, 3, FULL), (3, 3, FULL), (4, 2, FULL)]),
+        ("other", ("unless", "elsif", "unless_elsif", "ternary"),
+         [(1, 2, FULL), (2, 2, FULL), (3, 2, FULL), (4, 1, FULL)]),
     ]
 
 
-def family_trees(spec: list[tuple[int, int]]) -> Iterator[Any]:
-    for n, d in spec:
-        yield from R._exprs(n, d)
+def family_trees(spec: list[tuple[int, int, tuple[str, ...]]]) -> Iterator[Any]:
+    for n, d, syms in spec:
+        yield from R._exprs(n, d, syms)
 
 
 def has_x(e: Any) -> bool:
@@ -287,9 +292,9 @@ def check_tree(tree: Any, site: str, config: tuple[bool, bool], xs: tuple[str, .
             return out
         rule = "NOT-DISABLED" if missing_not else "PARENS-DISABLED"
         got = observe(env, src, {})
-        ok = got.startswith("liquid:")
+        ok = got.startswith("liquid:") or got == "LiquidTypeError"  # any LiquidError subclass
         if res is not None:
-            res.case(nontrivial=[site, cond, flags] if nontrivial else None, outcome=f"tree:{rule}:{'error' if ok else got}")
+            res.case(nontrivial=[site, cond] if nontrivial else None, outcome=f"tree:{rule}:{'error' if ok else got}")
             res.count(f"rule[{rule}]")
         if not ok:
             out.append({
@@ -314,7 +319,7 @@ def check_tree(tree: Any, site: str, config: tuple[bool, bool], xs: tuple[str, .
         data = {} if xv is R.UNDEF else {"x": xv}
         got = observe(env, src, data, tmpl_cache)
         if res is not None:
-            res.case(nontrivial=[site, cond, flags, xl] if nontrivial else None, outcome=f"tree:{want}",
+            res.case(nontrivial=[site, cond] if nontrivial else None, outcome=f"tree:{want}",
                      sample={"template": src, "flags": flags, "data": {k: repr(x) for k, x in data.items()},
                              "expected": want, "rule": why}
                      if (f["leaves"] == 4 and f["not"] and f["par"] and len(res.samples) < 1) else None)
@@ -349,7 +354,8 @@ class C12(Check):
         "provenance (property statement or /repo/docs section) fixes its result; all other cells are counted under "
         "counters.unspecified_excluded and excluded[<reason>]. Non-trivial = comparison/truthiness cell with an "
         "oracle (identity: site, op, operand labels and forms); tree with >= 2 leaves or a not/parenthesis "
-        "(identity: site, source, flags, x)."
+        "(identity: site + condition source; each such tree is executed under the 4 flag settings and every x "
+        "value, which count as evaluations, not as further distinct cases)."
     )
     assumptions = [
         "the default Undefined type and the default (strict) tolerance; other undefined types are C16's subject",
@@ -368,7 +374,8 @@ class C12(Check):
             "operators": list(R.OPS_CHECKED),
             "operators_excluded_as_undocumented": list(R.OPS_UNSPECIFIED),
             "sites": list(COND_SITES) + ["case(== only)"],
-            "trees": {name: {"sites": list(sites), "(leaves,max_nesting)": [list(p) for p in spec]}
+            "trees": {name: {"sites": list(sites),
+                             "(leaves,max_nesting,leaf_alphabet)": [[n, d, "|".join(syms)] for n, d, syms in spec]}
                       for name, sites, spec in fams},
             "tree_x_values": list(x_labels(tier)),
             "flag_configs(not,parens)": [list(c) for c in CONFIGS],
@@ -430,18 +437,12 @@ class C12(Check):
         if case["part"] == "cmp":
             v = check_cmp(case["op"], case["site"], forms[(case["l"], case["lform"])],
                           forms[(case["r"], case["rform"])], None)
-            if v:
-                print(f"  {v['what']}")
             return [v] if v else []
         if case["part"] == "truth":
             v = check_truth(case["site"], forms[(case["v"], case["form"])], None)
-            if v:
-                print(f"  {v['what']}")
             return [v] if v else []
         xs = tuple(case["x"]) or ("i0",)
         out = check_tree(case["tree"], case["site"], (bool(case["flags"][0]), bool(case["flags"][1])), xs, None)
-        for v in out:
-            print(f"  {v['what']}")
         return out
 
 
